@@ -310,9 +310,9 @@ inductive Hdr where
   | array (len : Nat)
   | map (len : Nat)
 
-/-- `validate_container` -/
-def validateContainer (env : Env) (S : Schema) (tid : TypeId) (h : Hdr) : VR :=
-  match resolveValidation env S tid with
+/-- `validate_container`, as a function of the resolved validation. -/
+def containerCheck (tv : Option TV) (h : Hdr) : VR :=
+  match tv with
   | none => .error .schemaInconsistency
   | some .none => .ok ()
   | some (.array b) =>
@@ -324,6 +324,10 @@ def validateContainer (env : Env) (S : Schema) (tid : TypeId) (h : Hdr) : VR :=
      | .map len => if lenValid b len then .ok () else .error .lengthValidation
      | _ => .error .schemaInconsistency)
   | some _ => .error .schemaInconsistency
+
+/-- `validate_container` -/
+def validateContainer (env : Env) (S : Schema) (tid : TypeId) (h : Hdr) : VR :=
+  containerCheck (resolveValidation env S tid) h
 
 def anyTid (env : Env) : TypeId := .wk env.anyId
 
@@ -405,9 +409,10 @@ def startMap (env : Env) (S : Schema) (tid : TypeId) (kk vk : VK ScryptoKind) (n
       | .error e => .error e
       | .ok _ => .ok kv
 
-/-- `apply_validation_for_custom_value` (`ValidatableCustomExtension<()>`) -/
-def validateCustom (env : Env) (S : Schema) (tid : TypeId) (c : ScryptoCustom) : VR :=
-  match resolveValidation env S tid with
+/-- `apply_validation_for_custom_value` (`ValidatableCustomExtension<()>`), as a function of the
+resolved validation. -/
+def customCheck (env : Env) (tv : Option TV) (c : ScryptoCustom) : VR :=
+  match tv with
   | none => .error .schemaInconsistency
   | some .none => .ok ()
   | some (.ref r) =>
@@ -420,9 +425,12 @@ def validateCustom (env : Env) (S : Schema) (tid : TypeId) (c : ScryptoCustom) :
      | _ => .error .schemaInconsistency)
   | some _ => .error .schemaInconsistency
 
-/-- `validate_terminal_value` for a non-custom terminal value. -/
-def validateTerminalValue (env : Env) (S : Schema) (tid : TypeId) (v : SV) : VR :=
-  match resolveValidation env S tid with
+def validateCustom (env : Env) (S : Schema) (tid : TypeId) (c : ScryptoCustom) : VR :=
+  customCheck env (resolveValidation env S tid) c
+
+/-- `validate_terminal_value` for a non-custom terminal value, as a function of the resolved validation. -/
+def termCheck (tv : Option TV) (v : SV) : VR :=
+  match tv with
   | none => .error .schemaInconsistency
   | some .none => .ok ()
   | some (.num k b) =>
@@ -442,6 +450,9 @@ def validateTerminalValue (env : Env) (S : Schema) (tid : TypeId) (v : SV) : VR 
   | some (.ref _) => .error .schemaInconsistency
   | some (.own _) => .error .schemaInconsistency
 
+def validateTerminalValue (env : Env) (S : Schema) (tid : TypeId) (v : SV) : VR :=
+  termCheck (resolveValidation env S tid) v
+
 /-- `TerminalValue` event: `map_terminal_value_event`, then `validate_terminal_value`. -/
 def terminal (env : Env) (S : Schema) (tid : TypeId) (v : SV) : VR :=
   match lookKind env S tid with
@@ -458,6 +469,22 @@ def byteOf : SV → Option Int
   | .int .u8 x => some (intVal .u8 x)
   | _ => none
 
+/-- one byte of a batch against a `NumericValidation<u8>` -/
+def byteOk (b : Bounds) (e : SV) : Bool :=
+  match byteOf e with
+  | some x => numValid .u8 b x
+  | none => true
+
+/-- `validate_terminal_value_batch`, as a function of the resolved validation. -/
+def batchCheck (tv : Option TV) (es : List SV) : VR :=
+  match tv with
+  | none => .error .schemaInconsistency
+  | some .none => .ok ()
+  | some (.num .u8 b) =>
+    if es.all (byteOk b) then .ok ()
+    else .error .numericValidation
+  | some _ => .error .schemaInconsistency
+
 /-- `TerminalValueBatch` event (non-empty byte array, typed with the element type):
 `map_terminal_value_batch_event`, then `validate_terminal_value_batch`. -/
 def validateBatch (env : Env) (S : Schema) (et : TypeId) (es : List SV) : VR :=
@@ -465,14 +492,7 @@ def validateBatch (env : Env) (S : Schema) (et : TypeId) (es : List SV) : VR :=
   | .error e => .error e
   | .ok k =>
     if !valueKindMatches (.int .u8) k then .error .mismatchingType
-    else
-      match resolveValidation env S et with
-      | none => .error .schemaInconsistency
-      | some .none => .ok ()
-      | some (.num .u8 b) =>
-        if es.all (fun e => match byteOf e with | some x => numValid .u8 b x | none => true) then .ok ()
-        else .error .numericValidation
-      | some _ => .error .schemaInconsistency
+    else batchCheck (resolveValidation env S et) es
 
 /-! ## The walk -/
 
